@@ -5,6 +5,7 @@ import LivesimVerif.Model.Subs
 import Driver.Util
 import Driver.Recv
 import Driver.Core
+import Driver.Mpd
 /-! Line-protocol driver: one operation per input line, one canonical result per output line. -/
 open Drv
 
@@ -80,7 +81,7 @@ def opCue (args : List String) : String :=
       "[" ++ joinWith "," (cues.map fun c => s!"({c.start - startS * 1000},{c.stop - startS * 1000},{c.utcS})") ++ "]"
   | _ => "bad-op"
 
-def step (st : DState) (line : String) : DState × String :=
+def step (st : DState2) (line : String) : DState2 × String :=
   match (line.trimAscii.toString.splitOn " ").filter (· ≠ "") with
   | "parse" :: args => (st, opParse args)
   | "lim" :: args => (st, opLim args)
@@ -89,12 +90,14 @@ def step (st : DState) (line : String) : DState × String :=
   | "ctr" :: args => (st, opCtr args)
   | "buf" :: args => (st, opBuf args)
   | "gen" :: args => (st, opGen args)
-  | "asset" :: args => defAsset st args
-  | "rep" :: args => defRep st args
-  | "seg" :: args => (st, opSeg st args)
+  | "asset" :: args => let r := defAsset st.core args; ({ st with core := r.1 }, r.2)
+  | "rep" :: args => let r := defRep st.core args; ({ st with core := r.1 }, r.2)
+  | "seg" :: args => (st, opSeg st.core args)
+  | "mpddef" :: args => defMpd st args
+  | "mpd" :: args => (st, opMpd st args)
   | _ => (st, "bad-op")
 
-partial def loop (h : IO.FS.Stream) (out : IO.FS.Stream) (st : DState) : IO Unit := do
+partial def loop (h : IO.FS.Stream) (out : IO.FS.Stream) (st : DState2) : IO Unit := do
   let line ← h.getLine
   if line.isEmpty then return ()
   let (st', o) := step st line
